@@ -2,6 +2,7 @@ import PwVerif.Proofs.Macro
 import PwVerif.Proofs.BridgeC09C01
 import PwVerif.Proofs.Preview
 import PwVerif.Proofs.BridgeC09C04
+import PwVerif.Proofs.MacroLabels
 /-!
 # C09 — A macro behaves exactly like its sub-graph, behind synchronized by-value IO
 
@@ -167,6 +168,42 @@ theorem C09_hint_chain_is_C04 : ∀ a ∈ [1, 2, 3], ∀ b ∈ [1, 2, 3],
     Hint.ms Hint.Cfg.now 10 (.h (BridgeC09C04.hintOf a)) (.h (BridgeC09C04.hintOf b)) = some (!hintClash a b) ∧
     Hint.ms Hint.Cfg.repaired 10 (.h (BridgeC09C04.hintOf a)) (.h (BridgeC09C04.hintOf b)) = some (!hintClash a b) :=
   BridgeC09C04.clash_is_C04
+
+/-- hand-wired flows (`starting_nodes` and run signals given by the creator): the surviving UI nodes become
+the starting nodes and the creator's starting node waits for ALL of them (`n << ui_nodes`), so the chain is
+entered once — the run IS `run`, and `C09_inline` & co. cover it, with zero, one or many surviving UI nodes -/
+theorem C09_wired_start_once (n : Node) (σ : St) : runWired .allOf n σ = run n σ :=
+  runWired_allOf n σ
+
+/-- two forked parameters, a hand-wired chain whose first child feeds itself (`c0.a = c0.o`): not idempotent -/
+def exWired : Node :=
+  .mac [⟨.c 1, 0⟩, ⟨.c 2, 0⟩]
+    [.leaf 0 [.out 0 0, .arg 0, .arg 1], .leaf 1 [.out 0 0, .arg 0, .arg 1]] [.out 1 0] [0] []
+
+/-- … were every UI node to trigger the starting node on its own (`ui >> n`), the two surviving UI nodes
+would enter the chain twice and the self-feeding child would show it in the macro's output -/
+theorem C09_wired_anyOf_witness :
+    keptCount [.leaf 0 [.out 0 0, .arg 0, .arg 1], .leaf 1 [.out 0 0, .arg 0, .arg 1]] [.out 1 0] 2 = 2 ∧
+    (runWired .allOf exWired (build exWired)).map (fun σ => σ.get .out 0) =
+      some (.app 1 [.app 0 [.c 0, .c 1, .c 2], .c 1, .c 2]) ∧
+    (runWired .anyOf exWired (build exWired)).map (fun σ => σ.get .out 0) =
+      some (.app 1 [.app 0 [.app 0 [.c 0, .c 1, .c 2], .c 1, .c 2], .c 1, .c 2]) := by
+  decide
+
+/-- output labels scraped from the creator's return statement (on C17's `parseOutput`): a returned LOCAL
+variable — any dot-free expression text — is labelled by its own text whatever the first parameter is
+called, also when its name starts with that name (`m` / `mean`, `self` / `selfish`); `<first>.<name>` is
+labelled `<name>` -/
+theorem C09_scraped_label_rule (selfArg label name : String) :
+    ('.' ∉ label.toList → MacroLabels.strip selfArg label = label) ∧
+    MacroLabels.strip selfArg (selfArg ++ "." ++ name) = name :=
+  ⟨MacroLabels.strip_local selfArg label, MacroLabels.strip_attr selfArg name⟩
+
+/-- `def M(m, x): …; mean = m.c1; return mean, m.c0` declares `mean`, `c0`; with the dot read as a wildcard
+it would be `an`, `c0` -/
+example : (MacroLabels.scrapedLabels "m" [.value (.tuple ["mean", "m.c0"])]).toOption = some (some ["mean", "c0"]) ∧
+    MacroLabels.stripWild "m" "mean" = "an" ∧
+    (MacroLabels.scrapedLabels "m" [.value (.single "m.c1.outputs.o")]).toOption = none := by decide
 
 /-! ## (b) by-value synchronisation -/
 
@@ -459,6 +496,9 @@ end PwVerif.C09
 #print axioms PwVerif.C09.C09_run_eq_any_schedule
 #print axioms PwVerif.C09.C09_refused_run
 #print axioms PwVerif.C09.C09_hint_chain_is_C04
+#print axioms PwVerif.C09.C09_wired_start_once
+#print axioms PwVerif.C09.C09_wired_anyOf_witness
+#print axioms PwVerif.C09.C09_scraped_label_rule
 #print axioms PwVerif.C09.C09_macro_eq_inlined
 #print axioms PwVerif.C09.C09_by_value_rerun
 #print axioms PwVerif.C09.C09_links_sync_partial
